@@ -27,8 +27,9 @@
 (* hints of its ancestors.  The mode lattice is                            *)
 (*   May(Explicit)   = subtrees rooted at nav / aside / header / footer or *)
 (*                     an ARIA landmark role of those kinds                *)
-(*   May(Standard)   = May(Explicit) + subtrees whose class / id is from   *)
-(*                     or near the navigation vocabulary                   *)
+(*   May(Standard)   = May(Explicit) + subtrees whose root has a class or  *)
+(*                     id value of its own that matches the vocabulary     *)
+(*                     (table VocabAttrs; look-alikes in NearAttrs do not) *)
 (*   May(Aggressive) = May(Standard) + subtrees (other than body) that     *)
 (*                     contain at least one link                           *)
 (* and the contract for the outputs Out(None), Out(Explicit), ... is       *)
@@ -68,16 +69,43 @@ PEnders     == Headings \cup {"div", "section", "nav", "aside", "header", "foote
 AllForms    == {"plain", "amp", "num"}
 
 RoleHints   == {"role:navigation", "role:complementary", "role:banner", "role:contentinfo"}
-VocabAttrs  == {"class:nav", "class:navbar", "class:menu", "class:sidebar", "class:footer", "class:widget",
-                "class:site-header", "class:breadcrumbs", "class:main-nav", "class:top menu",
-                "id:nav", "id:menu", "id:sidebar", "id:footer", "id:page-footer"}
+\* The attribute dimension.  An attr is "" or "key:value" or "key:value|key:value" (the
+\* attributes in source order).  Class values are space-separated token lists.
+\*
+\* Matches: the documented vocabulary semantics of htmldoc (navigation.go: the words nav,
+\* navbar, navigation, menu, topnav, sidenav, breadcrumb(s), site-header, page-header,
+\* masthead, banner, footer, site-footer, page-footer, colophon, sidebar, widget-area,
+\* widget, aside; matched case-insensitively as a whole word, i.e. delimited by the ends of
+\* the attribute value or by any non-letter: space, hyphen, underscore, digit).  An element
+\* is excluded by pattern only if one of ITS OWN attribute values matches; a word formed
+\* only by putting two attribute values next to each other is not a match.  The relation
+\* is given as a finite table over the generated attribute strings:
+VocabAttrs  == {\* the word alone, class or id
+                "class:nav", "class:navbar", "class:menu", "class:sidebar", "class:footer", "class:widget",
+                "class:site-header", "class:breadcrumbs", "id:nav", "id:menu", "id:sidebar", "id:footer",
+                "id:page-footer",
+                \* upper / mixed case
+                "class:SIDEBAR", "class:SideBar", "id:Footer",
+                \* delimited by hyphen, underscore, digit
+                "class:main-nav", "class:my-sidebar", "class:sidebar-left", "class:x_nav", "class:sidebar2",
+                \* one token among several class tokens
+                "class:top menu", "class:main sidebar wide", "class:content footer",
+                \* both attributes, either order; one of them matches on its own
+                "class:sidebar|id:secondary", "id:footer|class:content", "class:content|id:menu",
+                "id:main|class:widget dark"}
+\* look-alikes that do NOT match: the word is only a prefix / suffix / infix of a longer
+\* word, or exists only across the junction of two attribute values or two class tokens
 NearAttrs   == {"class:navy", "class:menubar", "class:footnote", "class:canvas", "class:bannerad",
-                "class:widgets", "id:asides", "id:navigate"}
-PlainAttrs  == {"", "class:content", "class:article-body", "id:main", "role:main"}
+                "class:widgets", "class:sidebars", "class:mysidebar", "id:asides", "id:navigate",
+                "class:side bar", "class:foot er",
+                "class:side|id:bar-chart", "id:side|class:bar", "class:bread|id:crumbs", "class:foot|id:er"}
+PlainAttrs  == {"", "class:content", "class:article-body", "id:main", "role:main", "class:content|id:main"}
 SpanAttrs   == {"", "colspan:2", "rowspan:2"}
 
 ExplicitHint(d) == d.tag \in {"nav", "aside", "header", "footer"} \/ d.attr \in RoleHints
-PatternHint(d)  == d.attr \in VocabAttrs \cup NearAttrs
+\* (NearAttrs carry no hint: an element whose own attribute values do not match is outside
+\* every subtree a mode may exclude by pattern)
+PatternHint(d)  == d.attr \in VocabAttrs
 
 TextDesc(form) == [tag |-> "#text", attr |-> form, planned |-> FALSE, plan |-> <<>>]
 IsText(d) == d.tag = "#text"
